@@ -166,7 +166,7 @@ def jStep (op : Op) (o : StepObs) : Json :=
   let (mro, installed) : Json × Json := match op, o.outcome with
     | .declare _ m _, .ok => (toJson m, .null)
     | .addParam .., .ok => (.null, .bool true)
-    | .addParam .., .mergeError .. => (.null, .bool true)
+    | .addParam .., .mergeError .. => (.null, .bool false)
     | _, _ => (.null, .null)
   Json.mkObj [("outcome", .str (outcomeStr o.outcome)), ("mro", mro), ("installed", installed),
     ("raws", Json.arr (o.raws.map fun (n, p) => jParam n p).toArray),
